@@ -111,6 +111,25 @@ def fracres(tier):
                     yield {"kind": "frac", "mode": mode, "L": L, "ef": ef, "alap": alap}
 
 
+def slot0(tier):
+    """the project starts exactly at a working slot (09:00): the first booked slot has index 0 (forward), and the window ends
+    exactly at the shift end so that backward tasks use the last index; three or four sub-slot tasks share that slot"""
+    import itertools as _it
+    for L in (60, 30):
+        for alap in (False, True):
+            for n in (3, 4):
+                for ef in _it.product((10, 15, 20, 120), repeat=n):
+                    if tier == "quick" and n == 4 and ef[0] == 120:
+                        continue
+                    yield {"kind": "slot0", "L": L, "alap": alap, "ef": ef}
+
+
+def slot0_spec(it):
+    tasks = [{"id": "abcd"[i], "effort": m, "alloc": ["r1"], "prio": 900 - 100 * i} for i, m in enumerate(it["ef"])]
+    return {"start": "2025-01-06-09:00", "dur": "8h", "res_min": it["L"] if it["L"] != 60 else None, "alap": it["alap"],
+            "resources": [{"id": "r1"}], "tasks": tasks}
+
+
 def frac_spec(it):
     tasks = [{"id": "abc"[i], "effort": m, "alloc": ["r1"], "prio": 900 - i} for i, m in enumerate(it["ef"])]
     return {"dur": "1w", "res_min": it["L"], "alap": it["alap"], "resources": [{"id": "r1"}], "tasks": tasks}
@@ -119,6 +138,8 @@ def frac_spec(it):
 def to_spec(item):
     if item["kind"] == "frac":
         return frac_spec(item)
+    if item["kind"] == "slot0":
+        return slot0_spec(item)
     if item["kind"] == "tb":
         from mc.props import c03
         return c03.tb_spec(item)
@@ -169,6 +190,7 @@ def run(ctx):
     explore(ctx, projects(ctx.tier), "mc.props.c01:evaluate", st, payload=payload, sample_of=sample)
     from mc.props import c03
     explore(ctx, c03.team_blockers(ctx.tier), "mc.props.c01:evaluate", st, payload=payload, sample_of=sample)
+    explore(ctx, slot0(ctx.tier), "mc.props.c01:evaluate", st, payload=payload, sample_of=sample)
     for mode in ("rebuilt", "blocked"):
         explore(ctx, [it for it in fracres(ctx.tier) if it["mode"] == mode], "mc.props.c01:evaluate", st, mode=mode, payload=payload, sample_of=sample)
     from mc.props import wide
